@@ -215,10 +215,15 @@ def _bfs_inv1(c, k):
 
 
 # ============================================================================ _initialize_add_diff_io
+def name_in(lst, k, tag=""):
+    """k is an element of the list of names (a view): lset of the list, i.e. (LSET_DEF) exists i < len. lst[i] = k"""
+    return PG.lset(NAME_LIST.dt.mk(lst.n, lst.elems))[k]
+
+
 def requested(names, grammar_names, d, tag):
     """Some requested name is a name of the grammar of d."""
     k = S(f"k!{tag}")
-    return z3.Exists([k], z3.And(in_name_list(names, k, tag), grammar_names(d)[k]))
+    return z3.Exists([k], z3.And(name_in(names, k), grammar_names(d)[k]))
 
 
 def _init_spec(N, X, O, IS, OS, DI, done):
@@ -232,8 +237,8 @@ def _init_spec(N, X, O, IS, OS, DI, done):
         ("output-sources-only", FA([j], z3.Implies(z3.And(0 <= j, j < OS.n), so(OS.elems[j])), OS.elems[j])),
         ("output-sources-all", z3.ForAll([d], z3.Implies(so(d), z3.Exists([j], z3.And(0 <= j, j < OS.n, OS.elems[j] == d))))),
         ("selected-disciplines", FA([d], DI.member[d] == z3.Or(si(d), so(d)), DI.member[d])),
-        ("selected-inputs", FA([d, k], z3.Implies(DI.member[d], lst_has(ins(DI, d), k) == z3.And(in_name_list(X, k, "sxi"), in_names(d)[k])), lst_has(ins(DI, d), k))),
-        ("selected-outputs", FA([d, k], z3.Implies(DI.member[d], lst_has(outs(DI, d), k) == z3.And(in_name_list(O, k, "sxo"), out_names(d)[k])), lst_has(outs(DI, d), k))),
+        ("selected-inputs", FA([d, k], z3.Implies(DI.member[d], lst_has(ins(DI, d), k) == z3.And(name_in(X, k), in_names(d)[k])), lst_has(ins(DI, d), k))),
+        ("selected-outputs", FA([d, k], z3.Implies(DI.member[d], lst_has(outs(DI, d), k) == z3.And(name_in(O, k), out_names(d)[k])), lst_has(outs(DI, d), k))),
     ]
 
 
@@ -379,6 +384,6 @@ class TraverseAddDiffIo(Contract):
             # path of length 0: a discipline with a requested input and a requested output keeps all of them
             ("requested-names-of-a-single-discipline", z3.ForAll([d], z3.Implies(
                 z3.And(N.member[d], requested(X, in_names, d, "trs"), requested(O, out_names, d, "trt")),
-                z3.And(r.member[d], z3.ForAll([k], z3.And(z3.Implies(z3.And(in_name_list(X, k, "tru"), in_names(d)[k]), lst_has(ins(r, d), k)),
-                                                          z3.Implies(z3.And(in_name_list(O, k, "trv"), out_names(d)[k]), lst_has(outs(r, d), k)))))))),
+                z3.And(r.member[d], z3.ForAll([k], z3.And(z3.Implies(z3.And(name_in(X, k), in_names(d)[k]), lst_has(ins(r, d), k)),
+                                                          z3.Implies(z3.And(name_in(O, k), out_names(d)[k]), lst_has(outs(r, d), k)))))))),
         ]
